@@ -893,12 +893,23 @@ class PsyEnv:
     def text(self):
         """str(psy.gen): lowers the tree in place -> the environment must
         be rebuilt afterwards."""
-        with contextlib.redirect_stdout(_SINK), \
-                contextlib.redirect_stderr(_SINK):
-            try:
-                return str(self.psy.gen)
-            except Exception as err:  # pylint: disable=broad-except
-                return f"<{type(err).__name__}: {str(err)[:120]}>"
+        import shutil
+        import tempfile
+        from psyclone.configuration import Config
+        # transformed kernels are written at gen time under a name that
+        # depends on the files already present: always use an empty directory
+        outdir = tempfile.mkdtemp(prefix="kern-", dir=os.getcwd())
+        Config.get().kernel_output_dir = outdir
+        try:
+            with contextlib.redirect_stdout(_SINK), \
+                    contextlib.redirect_stderr(_SINK):
+                try:
+                    return str(self.psy.gen)
+                except Exception as err:  # pylint: disable=broad-except
+                    return f"<{type(err).__name__}: {str(err)[:120]}>"
+        finally:
+            Config.get().kernel_output_dir = os.getcwd()
+            shutil.rmtree(outdir, ignore_errors=True)
 
     def text_is_destructive(self):
         return True
